@@ -12,6 +12,7 @@ TYPES = {
 INTS = {'i8': 8, 'i16': 16, 'i32': 32, 'i64': 64, 'isize': 64, 'u8': 8, 'u16': 16, 'u32': 32, 'u64': 64, 'usize': 64}
 
 def rust_in(kind, v, ty):
+    if kind == 'X': return f'{PX[ty]["T"]}::<N>::from_bits({v} as u32)'
     t = TYPES.get(kind, TYPES.get(ty))
     if kind == 'P' or kind in TYPES: return f'{t["T"]}::from_bits({v} as {t["u"]})'
     if kind == 'f64': return f'f64::from_bits({v})'
@@ -19,6 +20,7 @@ def rust_in(kind, v, ty):
     if kind == 'bool': return f'({v} != 0)'
     return f'({v} as {kind})'
 def rust_out(kind, e, ty):
+    if kind == 'X': return f'({e}).to_bits() as u64'
     t = TYPES.get(kind, TYPES.get(ty))
     if kind == 'P' or kind in TYPES: return f'({e}).to_bits() as u64'
     if kind == 'f64': return f'({e}).to_bits()'
@@ -36,6 +38,7 @@ def rust_out(kind, e, ty):
     uk = ('u' + kind[1:]) if kind[0] == 'i' else kind
     return f'(({e}) as {uk}) as u64'
 def lean_in(kind, v, ty):
+    if kind == 'X': return f'(Rs.cast_u64_i32 {v})'
     t = TYPES.get(kind, TYPES.get(ty))
     if kind == 'P' or kind in TYPES: return f'(Rs.cast_u64_{t["i"]} {v})'
     if kind == 'f64': return f'(Rs.F64.mk {v})'
@@ -44,6 +47,7 @@ def lean_in(kind, v, ty):
     return f'(Rs.cast_u64_{kind} {v})'
 def lean_out(kind, ty):
     """Lean function: result value -> UInt64"""
+    if kind == 'X': return '(fun r => Rs.cast_u32_u64 (Rs.cast_i32_u32 r))'
     t = TYPES.get(kind, TYPES.get(ty))
     if kind == 'P' or kind in TYPES: return f'(fun r => Rs.cast_{t["u"]}_u64 (Rs.cast_{t["i"]}_{t["u"]} r))'
     if kind == 'f64': return '(fun r => r.bits)'
@@ -176,4 +180,63 @@ def ops_for(ty):
         for o in ('atan2', 'hypot'):
             add(o, 'PP', 'P', f'x.{o}(y)', f'crate.p32e2.math.sleef.{o} x y', None, 'C15')
         add('powf', 'PP', 'P', 'x.powf(y)', 'crate.p32e2.math.P32E2.powf x y', None, 'C15')
+    return R
+
+# ------------------------------------------------------------------------------------------------ generic-width posits
+PX = {'px1': dict(T='PxE1', mod='pxe1', es=1, fmt='Spec.px1'), 'px2': dict(T='PxE2', mod='pxe2', es=2, fmt='Spec.px2')}
+
+def px_ops(ty):
+    """ops of PxE1<N> / PxE2<N>; line protocol `<ty> <op> <N> a [b [c]]`.  Kind 'X' = a value of the generic type (u32 bits,
+    left-aligned); specs see `n : Nat` and return `none` when an operand has non-zero low 32-N bits (outside C13/C14)."""
+    t = PX[ty]; T = t['T']; m = t['mod']; F = f'({t["fmt"]} n)'
+    R = []
+    def add(op, args, ret, rust, lean, spec=None, prop=''):
+        R.append((op, args, ret, rust, lean, spec, prop))
+    X1 = lambda e: f'(Spec.pxLift1 n a (fun a => {e}))'
+    X2 = lambda e: f'(Spec.pxLift2 n a b (fun a b => {e}))'
+    X3 = lambda e: f'(Spec.pxLift3 n a b c (fun a b c => {e}))'
+    for o, sym in (('add', '+'), ('sub', '-'), ('mul', '*'), ('div', '/')):
+        tr = o.capitalize()
+        add(o, 'XX', 'X', f'x {sym} y', f'crate.{m}.ops.{T}.{tr}.{o} n x y', X2(f'Spec.embed n (Spec.{o} {F} a b)'), 'C13')
+        add(o + '_assign', 'XX', 'X', f'{{ let mut w = x; w {sym}= y; w }}', f'(do let r ← crate.{m}.ops.{T}.{tr}Assign.{o}_assign n x y; pure r.2)', X2(f'Spec.embed n (Spec.{o} {F} a b)'), 'C13')
+    add('neg', 'X', 'X', '-x', f'crate.{m}.ops.{T}.Neg.neg n x', X1(f'Spec.embed n (Spec.neg {F} a)'), 'C10')
+    for i, o in enumerate(('mul_add', 'mul_sub')):
+        add(o, 'XXX', 'X', f'x.{o}(y, z)', f'crate.{m}.math.{T}.{o} n x y z', X3(f'Spec.embed n (Spec.fma {F} {i} a b c)'), 'C13')
+    add('sub_product', 'XXX', 'X', 'z.sub_product(x, y)', f'crate.{m}.math.{T}.sub_product n z x y', X3(f'Spec.embed n (Spec.fma {F} 2 a b c)'), 'C13')
+    if ty == 'px2':   # PxE1 has no sqrt
+        add('sqrt', 'X', 'X', 'x.sqrt()', f'crate.{m}.math.{T}.sqrt n x', X1(f'Spec.embed n (Spec.sqrt {F} a)'), 'C13')
+    add('round', 'X', 'X', f'{T}::<N>::round(x)', f'crate.{m}.math.{T}.round n x', X1(f'Spec.embed n (Spec.roundI {F} 0 a)'), 'C13')
+    b = lambda e: f'(if {e} then 1 else 0)'
+    for o, s in (('lt', f'Spec.lt {F} a b'), ('le', f'Spec.le {F} a b'), ('gt', f'Spec.lt {F} b a'), ('ge', f'Spec.le {F} b a'), ('eq', 'a == b')):
+        add(o, 'XX', 'bool', f'x.{o}(y)', f'crate.{m}.{T}.{o} n x y', X2(b(s)), 'C10')
+    add('cmp', 'XX', 'ord', f'{T}::<N>::cmp(x, y)', f'crate.{m}.{T}.cmp n x y', X2(f'Spec.cmp {F} a b'), 'C10')
+    add('is_zero', 'X', 'bool', 'x.is_zero()', f'crate.{m}.{T}.is_zero n x', X1(b('a == 0')), 'C10')
+    add('is_nar', 'X', 'bool', 'x.is_nar()', f'crate.{m}.{T}.is_nar n x', X1(b(f'a == Spec.nar {F}')), 'C10')
+    # conversions (C14)
+    add('to_f64', 'X', 'f64', 'x.to_f64()', f'crate.{m}.convert.{T}.to_f64 n x', X1(f'Spec.toF64 {F} a'), 'C14')
+    add('to_f32', 'X', 'f32', 'x.to_f32()', f'crate.{m}.convert.{T}.to_f32 n x', X1(f'Spec.toF32 {F} a'), 'C14')
+    add('f64_From', 'X', 'f64', 'f64::from(x)', f'crate.{m}.convert.f64.From.from n x', X1(f'Spec.toF64 {F} a'), 'C14')
+    add('f32_From', 'X', 'f32', 'f32::from(x)', f'crate.{m}.convert.f32.From.from n x', X1(f'Spec.toF32 {F} a'), 'C14')
+    add('from_f64', ['f64'], 'X', f'{T}::<N>::from_f64(x)', f'crate.{m}.convert.{T}.from_f64 n x', f'some (Spec.embed n (Spec.ofF64 {F} a))', 'C14')
+    add('from_f32', ['f32'], 'X', f'{T}::<N>::from_f32(x)', f'crate.{m}.convert.{T}.from_f32 n x', f'some (Spec.embed n (Spec.ofF32 {F} a))', 'C14')
+    add('From_f64', ['f64'], 'X', f'{T}::<N>::from(x)', f'crate.{m}.convert.{T}.From_f64.from n x', f'some (Spec.embed n (Spec.ofF64 {F} a))', 'C14')
+    add('From_f32', ['f32'], 'X', f'{T}::<N>::from(x)', f'crate.{m}.convert.{T}.From_f32.from n x', f'some (Spec.embed n (Spec.ofF32 {F} a))', 'C14')
+    for k in ('i32', 'u32', 'i64', 'u64'):
+        w = INTS[k]; sg = 'true' if k[0] == 'i' else 'false'
+        if ty == 'px1' and k in ('i64', 'u32'):      # PxE1::from_i64 / from_u32 are explicit todo!() stubs: outside C14/C16
+            add('to_' + k, 'X', k, f'x.to_{k}()', f'crate.{m}.convert.{T}.to_{k} n x', f'(match Spec.pxIn n a with | some a => Spec.toInt {F} {w} {sg} a | none => none)', 'C14')
+            add(k + '_From', 'X', k, f'{k}::from(x)', f'crate.{m}.convert.{k}.From.from n x', f'(match Spec.pxIn n a with | some a => Spec.toInt {F} {w} {sg} a | none => none)', 'C14')
+            continue
+        add('from_' + k, [k], 'X', f'{T}::<N>::from_{k}(x)', f'crate.{m}.convert.{T}.from_{k} n x', f'some (Spec.embed n (Spec.ofInt {F} {w} {sg} (a % 2^{w})))', 'C14')
+        add('From_' + k, [k], 'X', f'{T}::<N>::from(x)', f'crate.{m}.convert.{T}.From_{k}.from n x', f'some (Spec.embed n (Spec.ofInt {F} {w} {sg} (a % 2^{w})))', 'C14')
+        add('to_' + k, 'X', k, f'x.to_{k}()', f'crate.{m}.convert.{T}.to_{k} n x', f'(match Spec.pxIn n a with | some a => Spec.toInt {F} {w} {sg} a | none => none)', 'C14')
+        add(k + '_From', 'X', k, f'{k}::from(x)', f'crate.{m}.convert.{k}.From.from n x', f'(match Spec.pxIn n a with | some a => Spec.toInt {F} {w} {sg} a | none => none)', 'C14')
+    for o, t2 in TYPES.items():
+        T2 = t2['T']; m2 = t2['mod']
+        add('to_' + o, 'X', o, f'{T2}::from(x)', f'crate.convert.{T2}.From_{T}.from n x', X1(f'Spec.conv {F} {t2["fmt"]} a'), 'C14')
+        add('to_' + o + '_m', 'X', o, f'x.to_{m2}()', f'crate.convert.{T}.to_{m2} n x', X1(f'Spec.conv {F} {t2["fmt"]} a'), 'C14')
+        add('from_' + o, [o], 'X', f'{T}::<N>::from(x)', f'crate.convert.{T}.From_{T2}.from n x', f'some (Spec.embed n (Spec.conv {t2["fmt"]} {F} a))', 'C14')
+        add('from_' + o + '_m', [o], 'X', f'{T}::<N>::from_{m2}(x)', f'crate.convert.{T}.from_{m2} n x', f'some (Spec.embed n (Spec.conv {t2["fmt"]} {F} a))', 'C14')
+        add(o + '_to_px', [o], 'X', f'x.to_{m}::<N>()', f'crate.convert.{T2}.to_{m} n x', f'some (Spec.embed n (Spec.conv {t2["fmt"]} {F} a))', 'C14')
+        add(o + '_from_px', 'X', o, f'{T2}::from_{m}(x)', f'crate.convert.{T2}.from_{m} n x', X1(f'Spec.conv {F} {t2["fmt"]} a'), 'C14')
     return R
